@@ -1,6 +1,8 @@
 """C16 - Interval and AngleInterval behave as the closed sets they denote."""
+import copy
 import itertools
 import math
+import pickle
 from fractions import Fraction
 
 import numpy as np
@@ -214,7 +216,8 @@ def angle_interval():
 
 
 VIA = st.one_of(st.none(), st.none(), st.tuples(
-    st.sampled_from(["widen-end", "widen-start", "shrink-end", "shrink-start"]), st.floats(0.05, 0.95)).map(list))
+    st.sampled_from(["widen-end", "widen-start", "shrink-end", "shrink-start", "deepcopy", "copy", "pickle"]),
+    st.floats(0.05, 0.95)).map(list))
 
 
 def angle_via(s, e, via):
@@ -224,6 +227,14 @@ def angle_via(s, e, via):
     if not via:
         return ai
     mode, f = via
+    if mode in ("deepcopy", "copy", "pickle"):
+        # the interval under test is a copy (states and goal regions are copied all the time)
+        c = copy.deepcopy(ai) if mode == "deepcopy" else copy.copy(ai) if mode == "copy" else pickle.loads(
+            pickle.dumps(ai))
+        if type(c) is not AngleInterval or c.start != ai.start or c.end != ai.end:
+            raise Violation("angle-copy-differs", "%s of AngleInterval(%r, %r) is %s(%r, %r)" % (
+                mode, ai.start, ai.end, type(c).__name__, c.start, c.end))
+        return c
     ns, ne = ai.start, ai.end
     room = TWO_PI - (ne - ns)
     if mode == "widen-end":
@@ -381,13 +392,14 @@ def check_angle_contains_interval(r, ctx):
 
 def s_angle_shift(tier):
     from crverif.gen.values import angle
-    return st.fixed_dictionaries({"se": angle_interval(), "a": angle(), "op": st.sampled_from(["add", "sub"])})
+    return st.fixed_dictionaries({"se": angle_interval(), "a": angle(), "op": st.sampled_from(["add", "sub"]),
+                                  "via": VIA})
 
 
 def check_angle_shift(r, ctx):
     s, e = r["se"]
     a = r["a"]
-    ai = AngleInterval(s, e)
+    ai = angle_via(s, e, r.get("via"))
     res = ai + a if r["op"] == "add" else ai - a
     sh = a if r["op"] == "add" else -a
     if not isinstance(res, AngleInterval):
